@@ -35,4 +35,11 @@ PROPS = {
         "assumptions": COMMON_ASSUME + ["liveness (no deadlock) is proved as: a waiter implies a holder whose release is enabled and wakes exactly one waiter; scheduler fairness and that holders eventually release are assumed",
                     "AcquireMulti's loop is not a Coq model: per-queue theorems cover its primitive calls; its back-off behaviour (nothing held while blocked, completion, no lost slot) is decided by scripted and random runs of the implementation"],
     },
+    "C06": {
+        "props": "Props/C06.v", "corr": ["Corr/C06.v"],
+        "trusted": ["model of the ocidir index functions (Model/C06_Tags.v): indexSet, indexGet, tagDelete, ManifestDelete's index loop, TagList; encoding/json and the file system are not modelled",
+                    "memreg (harness registry model) for the registry-side runs"],
+        "assumptions": COMMON_ASSUME + ["the refinement theorem is for tags without ':' (the reference grammar) and layouts with at most one entry per tag; frame and removes-all theorems hold for ANY index incl. foreign ones",
+                    "linearizability of concurrent operations rests on o.mu serialising every index read-modify-write; checked by concurrent pushes on the implementation, not proved"],
+    },
 }
